@@ -3,10 +3,12 @@ import json, os, re, sys
 from checklib import *
 import spec_c07
 
+# the theorems this check expects to find in coq/Props/C07.v (the audit covers every Theorem there)
 THEOREMS = [
     "C07_count", "C07_gen_sat", "C07_gen_pinned", "C07_gen_sat_goldilocks", "C07_gen_pinned_goldilocks",
     "C07_reducing_zero_coeffs_unpinned", "C07_filter_zero_other", "C07_filter_zero_unused",
     "C07_filter_nonzero_own", "C07_filter_nonzero_own_goldilocks",
+    "C07_eval_hom", "C07_eval_embed_goldilocks", "C07_constraints_are_polynomials", "C07_degree_bound",
 ]
 
 
@@ -40,8 +42,8 @@ def report_violations(c, fails, prefix=""):
 def incoq_subset(c, casefile, want=10):
     """a handful of short cases re-evaluated inside Coq by vm_compute (no extraction involved) and compared
     with the implementation's results"""
-    fn = {"evalbase": "run_evalbase", "evalext": "run_evalext", "generate": "run_generate", "filter": "run_filter",
-          "sizes": "run_sizes", "pinned": "run_pinned"}
+    fn = {"evalbase": "run_gate_evalbase", "evalext": "run_gate_evalext", "generate": "run_gate_generate", "filter": "run_gate_filter",
+          "sizes": "run_gate_sizes", "pinned": "run_gate_pinned"}
     picked, seen = [], {}
     for lineno, op, args, res in parse_case_lines(casefile):
         if op in fn and len(args) <= 48 and res != ["panic"] and seen.get(op, 0) < 2:
@@ -72,8 +74,12 @@ def main():
     if a.replay:
         return replay(c, a.replay)
     ok_tr, errs = c.regenerate()
-    ok_mk, log = c.make(["Props/C07.vo", "Model/C07Run.vo"])
-    assumptions = c.audit("Props.C07", THEOREMS) if ok_mk else {}
+    ok_mk, log = c.make(["Model/C07Run.vo"] + props("C07")[2])
+    thms = theorems_of(*props("C07")[0])
+    missing = [t for t in THEOREMS if t not in thms]
+    if missing:
+        c.broken.append("property theorems missing from Props/C07.v: " + ", ".join(missing))
+    assumptions = c.audit(props("C07")[1], thms) if ok_mk else {}
     binary = c.build_harness("release")
     counts, mism, total, nchecked, fails, dist = {}, [], (0, 0), 0, [], {}
     samples, incoq = [], None
@@ -90,6 +96,15 @@ def main():
                 if mism:
                     c.broken.append("model/implementation correspondence: %d disagreements, first: %s"
                                     % (total[1], mism[0][:600]))
+                    if not fails and c.tier != "thorough":
+                        # failing-input search: the thorough generator replaces EVERY generator-written wire
+                        sfile = os.path.join(c.work, "cases_search.txt")
+                        saved = c.tier
+                        c.tier = "thorough"
+                        if c.run_harness(binary, "c07", sfile):
+                            _, sfails, _ = oracle_scan(sfile)
+                            report_violations(c, sfails, "search: ")
+                        c.tier = saved
             incoq = incoq_subset(c, casefile)
         with open(casefile) as f:
             for i, line in enumerate(f):
@@ -114,8 +129,8 @@ def main():
                         c.broken.append("debug build: model/implementation correspondence: %d disagreements, first: %s"
                                         % (dbg_total[1], dm[0][:600]))
             c.tier = saved
-    nthm = len(THEOREMS)
-    discharged = len([t for t in THEOREMS if assumptions.get(t, "").startswith("Closed")]) if ok_mk else 0
+    nthm = len(thms)
+    discharged = len([t for t in thms if assumptions.get(t, "").startswith("Closed")]) if ok_mk else 0
     coverage = {
         "obligations": nthm, "discharged": discharged,
         "checker_cmd": "tools/rs2v.py /repo coq/Gen && make -C coq Props/C07.vo && coqc Audit (Print Assumptions)",
@@ -123,7 +138,7 @@ def main():
                          "tools/rs2v.py (Poseidon tables, field constants)",
                          "ExtrOcamlBasic + ExtrOcamlZBigInt, OCaml 4.13.1, zarith, extract/main.ml",
                          "harness/src/c07.rs, tools/spec_c07.py (Python oracle on the implementation's outputs)"],
-        "theorems": {t: assumptions.get(t, "not checked") for t in THEOREMS},
+        "theorems": {t: assumptions.get(t, "not checked") for t in thms},
         "translator_ok": ok_tr, "translator_errors": errs,
         "correspondence_cases": total[0], "correspondence_mismatches": total[1],
         "correspondence_by_op": counts,
@@ -137,10 +152,10 @@ def main():
                 "(thorough) generator-written wires",
     }
     c.finish("proof", coverage, [
-        "a formal lemma that evaluation commutes with the base-field embedding is not proved: the model is one "
-        "polymorphic function used at Fp and Fp2, both instances are compared with the implementation",
-        "no syntactic degree theorem (constraints are Gallina functions, not an AST): degrees are measured on the "
-        "implementation as gate_testing does, and bounded in the model by an abstract (max,+) interpretation",
+        "the four Rust evaluators (eval_unfiltered, base batch / packed, in-circuit) are tied to ONE polymorphic "
+        "model function by correspondence; that the model instances agree with each other is proved (C07_eval_hom)",
+        "the degree theorem is about the model evaluator run on coefficient lists (Base/Poly.v); the implementation's "
+        "degrees are measured as gate_testing::test_low_degree does",
         "LookupGate / LookupTableGate have zero gate constraints; their generators are outside C07 (C08)",
         "ReducingGate{num_coeffs:0} is excluded from gen_pinned by a visible premise and proved unpinned",
         "AVX2/AVX-512 packed lanes: eval_unfiltered_base_batch is exercised in the default (scalar packing) build"])
